@@ -155,6 +155,8 @@ class Built:
             r = go(t)
             return r if required else ["opt", r]
 
+        self._ev = ev
+
         def cls_of(o):
             xt = o.__xpmtype__
             if id(xt) not in cindex:
@@ -188,6 +190,44 @@ class Built:
             i += 1
         self.allobjs = objs
         return dict(classes=classes, nodes=nodes)
+
+    # -- attempts to modify + identifier requests (C14)
+    def run_sops(self, ops):
+        """ops: assign/meta/pre/seal/raw/full/jobpath.  Returns (answers, ops with the stored value filled in)."""
+        from experimaestro.core.objects import SealedError
+        out, eff = [], []
+        for op in ops:
+            k = op["op"]
+            o = self.allobjs[op["n"]]
+            op = dict(op)
+            try:
+                if k == "assign":
+                    setattr(o, op["name"], self.val(op["v"]))
+                    op["stored"] = self._ev(o.__xpm__.values[op["name"]])
+                    out.append("ok")
+                elif k == "meta":
+                    setmeta(o, op["flag"])
+                    out.append("ok")
+                elif k == "pre":
+                    o.add_pretasks(*[self.allobjs[i] for i in op["ids"]])
+                    out.append("ok")
+                elif k == "seal":
+                    o.__xpm__.seal(DirectoryContext(Path("/nonexistent/ctx")))
+                    out.append("ok")
+                elif k == "full":
+                    out.append(o.__xpm__.full_identifier.all.hex())
+                elif k == "raw":
+                    out.append(o.__xpm__.raw_identifier.all.hex())
+                elif k == "jobpath":
+                    out.append("path:" + str(o.__xpm__.job.relpath))
+                else:
+                    raise ValueError(k)
+            except (AttributeError, SealedError, AssertionError) as e:
+                out.append("rejected:" + exc_name(e))
+            except Exception as e:  # noqa
+                out.append("exc:" + exc_name(e))
+            eff.append(op)
+        return out, eff
 
     # -- request histories
     def run_history(self, ops):
